@@ -31,6 +31,7 @@ func c13Parent(c *mon.Ctx) {
 	}
 	sh := shards("plain", "mutants", 16, "-n", fmt.Sprint(per))
 	sh = append(sh, shards("plain", "lexical", 1)...)
+	sh = append(sh, shards("plain", "reuse", 2, "-n", fmt.Sprint(per))...)
 	res := c.RunShards(sh, 16)
 	c.ClassifyDeaths(res, "failing calls return errors")
 }
@@ -53,8 +54,8 @@ func loadDocumentedCodes() {
 }
 
 type errShape struct {
-	Code, Msg string
-	Line, Col int
+	Code, Msg  string
+	Line, Col  int
 	Structured bool
 }
 
@@ -269,6 +270,15 @@ func c13Child(a *ChildArgs) {
 	a.Rec.Info("documented_codes", fmt.Sprint(len(documentedCodes)))
 	switch a.Phase {
 	case "lexical":
+		// every backslash escape letter, complete, with trailing hex-like digits, and cut off by the end of the input
+		for c := byte('0'); c <= 'z'; c++ {
+			if !(c >= '0' && c <= '9' || c >= 'A' && c <= 'Z' || c >= 'a' && c <= 'z') {
+				continue
+			}
+			for _, form := range []string{"SELECT 'a\\%cb'", "SELECT 'a\\%c12'", "SELECT 'a\\%c00e9 x'", "SELECT 'a\\%cZZZZ'", "SELECT 'a\\%c", "SELECT 'a\\%c1", "SELECT \"q\\%cq\" FROM t WHERE 'a\\%c{1F600}' = b"} {
+				c13Input(a, strings.ReplaceAll(form, "%c", string(c)), "")
+			}
+		}
 		for _, s := range lexicalGarbage {
 			c13Input(a, s, "")
 			c13Input(a, "SELECT a\nFROM t\nWHERE x = 1 AND "+strings.TrimPrefix(s, "SELECT "), "")
@@ -307,6 +317,43 @@ func c13Child(a *ChildArgs) {
 		big := "SELECT 1 " + strings.Repeat(" ", tokenizer.MaxInputSize)
 		c13Input(a, big, "E1006")
 		a.Rec.Sample("lexical", 2, map[string]string{"input": lexicalGarbage[4]})
+	case "reuse":
+		// one long-lived parser and tokenizer, never reset, across hundreds of rejected inputs: every error must be
+		// the one a fresh pair reports for that input (code, message, location)
+		avoid := mon.AvoidFeatures()
+		base := a.Seed*7919 + int64(a.Shard)*104729 + 21
+		bads := []string{"INSERT INTO t VALUES (1, -)", "SELECT - FROM t", "SELECT a FROM t WHERE (a = ", "SELECT f(", "SELECT CASE WHEN a THEN", "SELECT NOT", "UPDATE t SET a = -", "SELECT +(1", "SELECT 'unterminated",
+			"SELECT a FROM t WHERE a IN (1,", "SELECT CAST(a AS", "SELECT a FROM", "SELECT a,, b FROM t", "SELECT a FROM t WHERE a = = 1"}
+		tkU, pU := mustTokenizer(), parser.NewParser()
+		run := func(tk *tokenizer.Tokenizer, p *parser.Parser, sql string) errShape {
+			toks, err := tk.Tokenize([]byte(sql))
+			if err != nil {
+				return shapeOf(err)
+			}
+			if _, err := p.ParseFromModelTokens(toks); err != nil {
+				return shapeOf(err)
+			}
+			return errShape{}
+		}
+		for i := 0; i < a.N*2; i++ {
+			var sql string
+			if i%3 != 2 {
+				sql = bads[(i/3+i)%len(bads)]
+			} else {
+				r := rand.New(rand.NewSource(base + int64(i)*15485863))
+				g := gen.New(r, avoid)
+				m, _, _ := gen.MutateToks(r, g.Statement(2).Toks)
+				sql = gen.Plain(m)
+			}
+			a.Rec.Count("evaluations", 1)
+			used := run(tkU, pU, sql)
+			fresh := run(mustTokenizer(), parser.NewParser(), sql)
+			if used != fresh {
+				a.Rec.Viol("C13/reuse/differs/"+fresh.Code+"-became-"+used.Code, "the same input always produces the same code, message and location, also on an instance that has failed before",
+					fmt.Sprintf("after %d calls on the same parser: %+v, on a fresh one: %+v", i, used, fresh), map[string]interface{}{"input": sql, "calls_before": i})
+				break
+			}
+		}
 	case "mutants":
 		avoid := mon.AvoidFeatures()
 		base := a.Seed*7919 + int64(a.Shard)*104729
